@@ -2,6 +2,7 @@
 """Regenerates the `fixed` list of known_findings.json from /repo's "fix:" commits."""
 import json, subprocess
 PROP = {
+"sort_by_order drops an element":"C16",
 "GraphQL schema generation hashes":"C19","GraphQL flattened field context leaks":"C19",
 "serialization of a discriminated union of TypedDict":"C04","dependent_required ignores fields skipped":"C03","FieldsConstructor counts all":"C08","coerce() turns unhashable":"C03,C14","Optional[Literal/Enum] schema":"C06",
 "FrozenSetMethod leaks":"C03","default values of GraphQL":"C11,C19","concurrent recursion":"C20","field with Undefined default":"C04,C07",
